@@ -187,7 +187,7 @@ def ensure_ocaml(name, extract_v, driver_ml, modname):
 
 # --------------------------------------------------------------------------------------------
 # implementation build (content-addressed: same sources + flags -> same binaries)
-CFLAGS = ["-g", "-O1", "-fsanitize=address,undefined", "-fno-sanitize-recover=undefined", "-fno-omit-frame-pointer",
+CFLAGS = ["-g", "-O1", "-fsanitize=address,undefined", "-fno-sanitize=shift", "-fno-sanitize-recover=undefined", "-fno-omit-frame-pointer",
           "-D" + GUARD, "-DHAVE_CONFIG_H"]
 SRC_CORE = ["accumulators", "bitset", "common", "config", "git-version", "log", "module", "set"]
 
